@@ -238,6 +238,21 @@ CLAIMS["C20"] = (
     "DESIGN.md section 5 C20",
 )
 
+# clauses added during the build (DESIGN.md section 10.1), appended to the claim text
+ADDENDA = {
+    "C01": "Added: only the sentinel stops the parse (every real value incl. type 0 / empty payload goes on to the consume); no state-dependent return before the loop and none right after a consume; the length grows by the number of BYTES of the chunk (len() of a chunk not proved to be `bytes` is a different symbol).",
+    "C02": "Added: the bytes handed to the transport write are never rebound before it.",
+    "C04": "Added: in the plaintext loop the framing marker is examined before any give-up return.",
+    "C05": "Added (R3): the one-shot guard already refuses a second caller when the phase first suspends (state left, or an in-progress marker tested by the guard is set) - no two overlapping attempts on one object.",
+    "C06": "Added (R2): the version guard is evaluated over major 0..300 x minor pairs with APIVersion as the ordered pair its dataclass comparison uses.",
+    "C07": "Added: every future completed by the closer and its callees is tested not-done first (an InvalidStateError after CLOSED would lose the callback); the client's hook invokes the callback bound by value from this start_connection() call (or an attribute every call overwrites unconditionally).",
+    "C09": "Added (R3): a wrong framing marker is diagnosed before any give-up return of the plaintext loop; in the closer the connect-phase interrupts are triggered before the frame helper is closed (FIFO wake-up order decides which error the connecting task reports).",
+    "C10": "Added (R2): a cancelled pong deadline is reset to None on the dispatcher path, so the `is None` arm guard fires again.",
+    "C11": "Added (R2): the request's timeout timer is cancelled or has fired on every exit.",
+    "C14": "Added (R3): from_dict keeps a field iff its key is present (or missing keys are not ignored) - never depending on the stored value.",
+    "C19": "Added (R3): a failing connect phase clears the installed connection only while it is still the phase's own.",
+}
+
 UNDER_CONSTRUCTION = "rule set not built yet in this round (see DESIGN.md section 5 for the planned static rules)"
 
 NOT_APPLICABLE = {}
@@ -255,7 +270,7 @@ def main() -> int:
                 "evidence_file": f"/verif/evidence/{pid}.json",
                 "replay_cmd_template": f"{PY} -m sa replay {{path}}",
                 "engine": "sa",
-                "level_claimed": {"category": "other", "text": text, "design_ref": ref},
+                "level_claimed": {"category": "other", "text": text + (" " + ADDENDA[pid] if pid in ADDENDA else ""), "design_ref": ref + (" and section 10.1" if pid in ADDENDA else "")},
                 "level_note": NOTE,
                 "technique": tech,
             }
